@@ -32,11 +32,12 @@ anything else raises `RtlilSyntaxError(line, message)`.  `parse(text) -> doc` re
 Strictness: identifiers must start with `\\` or `$`; the declared width of a `W'bits` constant must equal the
 number of digits (one exception: `0'0`, which is how the emitter prints a zero-width constant, reads as no bits); wire options are limited to `width`, `input|output|inout N`, `signed` (each at most once;
 `upto`/`offset` are rejected because the emitter never writes them); `sync` rules in processes are rejected;
-every block must be closed by its `end`; no trailing tokens on a line.  `flatten(sigspec)` gives the list of
+every block must be closed by its `end`; no trailing tokens on a line.  `const_value(const, signed)` gives the integer a
+parameter / attribute constant denotes (two's complement of its written width when `signed`).  `flatten(sigspec)` gives the list of
 chunks LSB first with nested concatenations expanded; widths are left to the consumer.
 """
 
-__all__ = ["parse", "flatten", "RtlilSyntaxError"]
+__all__ = ["parse", "flatten", "const_value", "RtlilSyntaxError"]
 
 
 class RtlilSyntaxError(Exception):
@@ -495,3 +496,20 @@ def flatten(sig):
             out.extend(flatten(part))
         return out
     return [sig]
+
+
+def const_value(const, signed=False):
+    """integer denoted by a parsed constant: ["int", n] -> n; ["bits", "1011"] (MSB first) -> the unsigned number, or
+    the two's-complement number of that many digits when `signed` (the `parameter signed` marker); None for strings
+    and for constants containing x/z/-/m digits"""
+    if const[0] == "int":
+        return const[1]
+    if const[0] != "bits":
+        return None
+    digits = const[1]
+    if any(c not in "01" for c in digits):
+        return None
+    u = int(digits, 2) if digits else 0
+    if signed and digits and digits[0] == "1":
+        u -= 1 << len(digits)
+    return u
